@@ -65,3 +65,38 @@ Fixpoint c05x_from (doomed : list string) (d : db) (i : nat) (tr : list (directi
   end.
 Definition C05x_mon (tr : list (directive * list obs)) : list viol := c05x_from [] db0 0 tr.
 Definition C05_full_mon (tr : list (directive * list obs)) : list viol := (C05_mon tr ++ C05x_mon tr)%list.
+
+(* 507 (history fold that remembers which request each id carries): an acknowledged registration that shows the
+   promise PENDING and reports no new callback is only right when the registration already exists, i.e. the
+   durable state holds the callback with the derived id (or, if the promise completed in the meantime, the task
+   that callback became).  Otherwise the caller is told to wait for a wake-up nobody will send. *)
+Definition reg_id (q : request) : option string :=
+  match q with
+  | QCreateCallback pid root _ _ => Some (callback_id root pid)
+  | QCreateSubscription id pid _ _ => Some (subscription_id pid id)
+  | _ => None
+  end.
+
+Definition registered (d : db) (rid : string) : bool :=
+  existsb (fun c => String.eqb (cb_id c) rid) (callbacks d) || existsb (fun t => String.eqb (t_id t) rid) (tasks d).
+
+Fixpoint c05y_from (reqs : list (string * request)) (d : db) (i : nat) (tr : list (directive * list obs)) : list viol :=
+  match tr with
+  | [] => []
+  | (DTick _ _ _ arrive, ob) :: tr' =>
+    let reqs' := (arrive ++ reqs)%list in
+    (flat_map (fun o => match o with
+                        | OInst id _ (Some (RspCallback 20000 (Some p) None)) =>
+                          if p_state p =? Pending then
+                            match find (fun e => String.eqb (fst e) id) reqs' with
+                            | Some (_, q) => match reg_id q with
+                                             | Some rid => if registered d rid then [] else [(507, i)]
+                                             | None => []
+                                             end
+                            | None => []
+                            end
+                          else []
+                        | _ => [] end) ob ++ c05y_from reqs' d (S i) tr')%list
+  | (_, ob) :: tr' => c05y_from reqs (last_snap d ob) (S i) tr'
+  end.
+Definition C05y_mon (tr : list (directive * list obs)) : list viol := c05y_from [] db0 0 tr.
